@@ -41,6 +41,72 @@ def run(repo, chk):
     rule_tables(repo, chk)
     rule_k_l(repo, chk)
     rule_m(repo, chk)
+    rule_resend(repo, chk)
+    rule_reply_total(repo, chk)
+
+
+def rule_reply_total(repo, chk):
+    """The sender waits until a reply arrives: the reply must not depend on whether json can carry what the handler returned."""
+    chk.rule('C19.o', 'dump_value answers for every value: when json cannot carry the result (bytes, a nested Value, an arbitrary object) an error reply with the same id is '
+                      'produced instead of an exception that leaves the sender waiting')
+    f = repo.func(NODE_UTILS, 'dump_value')
+    chk.touch(f)
+    g = f.cfg()
+    dumps = [n for n in g.nodes if n.kind == 'stmt' and any((call_name(c) or '').endswith('dumps') for c in calls_in(n.ast))]
+    need(dumps, 'C19.o: dump_value does not serialise')
+    def catches_type_error(h):
+        names = handler_names(h.ast)
+        return names is None or bool(set(names) & {'TypeError', 'Exception', 'BaseException'})
+    guarded = [n for n in dumps if any(e.kind == 'x' and e.dst.kind == 'except' and catches_type_error(e.dst) for e in n.succ)]
+    ok = bool(guarded)
+    path = None
+    for n in guarded:
+        hs = [e.dst for e in n.succ if e.kind == 'x' and e.dst.kind == 'except' and catches_type_error(e.dst)]
+        for h in hs:
+            # the clause ends in a reply that carries the error flag and the id of the call
+            rets = [m for m in pat.region(g, 'except', h.ast) if m.kind == 'stmt' and isinstance(m.ast, ast.Return) and m.ast.value is not None]
+            p = pat.escapes_region(g, h, pat.region(g, 'except', h.ast), lambda m: m in rets, exits=('exit', 'raise'))
+            if p is not None or not rets:
+                ok, path = False, p
+            txt = ' '.join(src(m.ast) for m in pat.region(g, 'except', h.ast) if m.kind == 'stmt')
+            if "'errors': True" not in txt.replace('"', "'") or 'node_call_id' not in txt:
+                ok = False
+    chk.ob('o', f.ref, 'a result that json cannot carry is answered with an error reply for the same call (the sender is not left waiting)', ok, loc(f, dumps[0].ast),
+           path=pat.path_lines(path) if path else None, discr='unencodable-result-answered')
+
+
+def rule_resend(repo, chk):
+    """send() waits for the reply by polling a mark that the reply handler sets on the event object: a mark left by an earlier round trip of the same object must not
+    end the wait of this one."""
+    chk.rule('C19.n', 'the completion mark send() waits for is taken off the event before the wait begins (the same event object may be sent again: it must be waited '
+                      'for and get its own result)')
+    snd = need(_m(repo.cls(NODE_PROTOCOL, 'Protocol'), 'send'), 'C19.n: Protocol.send missing')
+    chk.touch(snd)
+    g = snd.cfg()
+    ev = snd.params[1]
+    loop_tests = [w.test for w in walk_no_defs(snd.node) if isinstance(w, ast.While)]
+    waits = [n for n in g.nodes if n.kind == 'test' and 'hasattr' in src(n.ast) and any(n.ast is t or any(x is n.ast for x in ast.walk(t)) for t in loop_tests)]
+    need(waits, 'C19.n: send() has no wait for a completion mark')
+    marks = set()
+    for n in waits:
+        for c in calls_in(n.ast):
+            if call_name(c) == 'hasattr' and len(c.args) == 2 and isinstance(c.args[1], ast.Constant):
+                marks.add(c.args[1].value)
+    def clears(n, mark):
+        if n.kind != 'stmt':
+            return False
+        if isinstance(n.ast, ast.Delete) and any(src(t) == f'{ev}.{mark}' for t in n.ast.targets):
+            return True
+        return any(call_name(c) == 'delattr' and len(c.args) == 2 and src(c.args[0]) == ev and pat.is_const(c.args[1], mark) for c in calls_in(n.ast))
+    for mark in sorted(marks):
+        cl = [n for n in g.nodes if clears(n, mark)]
+        absent = pat.test_edge(lambda tt, pol, mark=mark: any(call_name(c) == 'hasattr' and len(c.args) == 2 and src(c.args[0]) == ev and pat.is_const(c.args[1], mark)
+                                                              for c in calls_in(tt)) and ((pol == 'F') != (isinstance(tt, ast.UnaryOp) and isinstance(tt.op, ast.Not))))
+        for w in waits:
+            first = [e for e in w.pred] if hasattr(w, 'pred') else []
+            q = Q.reachable_without(g, w, avoid_node=lambda n: n in cl, avoid_edge=lambda e2: absent(e2) and e2.src is not w)
+            chk.ob('n', snd.ref, f'the wait for `{mark}` cannot be ended by a mark that was on the event before this send', q is None, loc(snd, w.ast),
+                   path=pat.path_lines(q) if q else None, discr=f'mark-cleared:{mark}')
 
 
 def _m(cls, name):
